@@ -182,7 +182,7 @@ _FULLWIDTH = {c: chr(0xFF10 + i) for i, c in enumerate("0123456789")}
 _FULLWIDTH.update({c: chr(0xFF41 + i) for i, c in enumerate("abcdef")})
 _ARABIC = {c: chr(0x0660 + i) for i, c in enumerate("0123456789")}
 
-SPELLINGS = ["upper", "lead_space", "trail_space", "trail_nl", "0x", "fullwidth1", "fullwidth_all",
+SPELLINGS = ["nl_for_last", "upper", "lead_space", "trail_space", "trail_nl", "0x", "fullwidth1", "fullwidth_all",
              "mid_space", "arabic1", "first_upper", "trail_tab", "lead_nl", "trail_nul", "bytes_like",
              "zero_width", "plus_00"]
 
@@ -191,6 +191,8 @@ def respell(k, how):
     """An alternative spelling of hex string k denoting (to a lenient reader) the same bytes."""
     if how == "upper":
         return k.upper()
+    if how == "nl_for_last":
+        return k[:-1] + "\n"            # right length, last character a line feed
     if how == "lead_space":
         return " " + k
     if how == "trail_space":
@@ -256,8 +258,13 @@ def junk_entry(rng):
     hx = lambda n: "".join(rng.choice("0123456789abcdef") for _ in range(n))  # noqa: E731
     if r < 0.2:
         return gen_json(rng, 2)
-    if r < 0.3:
+    if r < 0.26:
         return {"signature": hx(rng.choice([0, 2, 126, 127, 128, 129, 130]))}
+    if r < 0.30:
+        # right length, but the last character is a line feed / carriage return / space
+        return rng.choice([{"signature": hx(127) + "\n"}, {"signature": hx(128) + "\n"}, {"signature": hx(127) + "\r"},
+                           {"signature": hx(128), "other_headers": hx(9) + "\n"}, {"signature": hx(127) + "\n", "other_headers": hx(10)},
+                           {"signature": hx(128), "other_headers": hx(10), "see_also": hx(39) + "\n"}])
     if r < 0.4:
         return {"signature": hx(128).upper()}
     if r < 0.5:
